@@ -11,7 +11,10 @@
   about, each for all inputs:
     * constraints in any order            `feasible_perm_constraints`
     * stations in any order               `feasible_perm_stations`, `densify_equivariant`,
-                                          `updateSchedules_equivariant`, `run_equivariant_stations_partial`
+                                          `updateSchedules_equivariant`, `run_equivariant_stations` (the WHOLE
+                                          simulator `Acn.Sim.run`), `run_equivariant_stations_partial` (core only,
+                                          but from any state and with failing schedulers)
+    * ties in a sort key                  `sort_perm_of_distinct_keys`
     * sessions / events in any order      `popCurrent_perm`, `plugins_commute`, `unplugs_commute`,
                                           `eventsStage_perm`, `run_perm_sessions_partial`
     * time shift by `k` periods           `updateSchedules_shift`, `body_shift`, `run_shift_partial`
@@ -20,6 +23,8 @@
 -/
 import AcnProofs.Lemmas.EquivPilots
 import AcnProofs.Lemmas.EquivShift
+import AcnProofs.Lemmas.EquivSimRun
+import AcnProofs.C08
 
 set_option linter.unusedSectionVars false
 
@@ -312,4 +317,77 @@ example : exCfg.maxRecompute = some 2 ∧ initPending { exCfg with maxRecompute 
   refine ⟨rfl, by decide, by decide, by decide⟩
 
 end events
+
+section simulator
+open Acn.Sim Acn.SimEquiv
+variable {K : Type} [Field K] [LinearOrder K] [IsStrictOrderedRing K] [HasExp K]
+
+/-- CAPSTONE (stations).  Register the stations in the order `σ` (any permutation of the station
+    numbers) and hand the simulator a scheduler pair that is `SchedEquivariant` (answers views that
+    differ only by the station order with the same `{station id ↦ pilots}` dict).  Then every run of
+    the FULL simulator model `Acn.Sim.run` (events, scheduling, `_update_schedules`, `update_pilots`
+    with the battery models, `_store_actual_charging_rates`, peak, occupancy snapshots) that completes
+    without raising on the original scenario completes on the permuted one, and the final states are
+    `StEquiv σ`: pilot and rate matrices and `EVSE.current_pilot` are the σ-row-permuted ones
+    (i.e. equal keyed by station id), and the event core (iteration, queue, occupancy, event / EV
+    histories, invocation periods), every per-EV record (energy, rate, battery), the peak and the
+    number of random draws are EQUAL.  Any fuel `n`, any scenario with pairwise different station
+    ids, any EVSE / battery kinds, any schedules.
+    Hypotheses that are genuinely needed: `ConstNoise` — the random stream is consumed in station
+    order, so only a constant stream is order-independent; no raise — when `update_pilots` raises,
+    the stations before the offender have already charged, and "before" is the registration order. -/
+theorem run_equivariant_stations (σ : List Nat) (d : Station K) (cfg : Cfg K) (h : PermOK σ cfg)
+    {sched sched' : View K → Except EventCore.Err (Schedule K)} (hs : SchedEquivariant σ sched sched')
+    (n : Nat) (r : State K) (hr : Sim.run cfg sched n (Sim.init cfg) = (r, none)) :
+    ∃ r', Sim.run (permCfg σ d cfg) sched' n (Sim.init (permCfg σ d cfg)) = (r', none) ∧ StEquiv σ r r' := by
+  obtain ⟨he, hsh, ho⟩ := init_equiv (d := d) h
+  exact run_equiv_st h hs n he hsh ho hr
+
+/-- the scripted-by-station-name scheduler and the empty scheduler are equivariant (for every σ) -/
+theorem scripted_schedEquivariant (σ : List Nat) (script : List (Nat × Option (Schedule K))) (dflt : Schedule K) :
+    SchedEquivariant σ (scripted script dflt) (scripted script dflt) ∧
+    SchedEquivariant σ (emptySched (K := K)) emptySched :=
+  ⟨scripted_equivariant σ script dflt, emptySched_equivariant σ⟩
+
+theorem constNoise_of_short {cfg : Cfg K} (h : cfg.noise.length ≤ 1) : ConstNoise cfg := by
+  intro i j
+  unfold noiseAt
+  match hn : cfg.noise with
+  | [] => rfl
+  | [v] => simp [Nat.mod_one]
+  | _ :: _ :: _ => rw [hn] at h; simp at h
+
+/-- the hypotheses of `run_equivariant_stations` are satisfiable: two stations swapped -/
+example (cfg : Cfg K) (a b : Station K) (hab : a.id ≠ b.id) (hst : cfg.stations = [a, b]) (v : K)
+    (hno : cfg.noise = [v]) : PermOK [1, 0] cfg :=
+  ⟨by rw [hst]; exact List.Perm.swap 0 1 [], by simp [Ledger.StationsNodup, hst, hab], constNoise_of_short (by simp [hno])⟩
+
+end simulator
+
+section ties
+open Acn.Sorted
+variable {K : Type} [Field K] [LinearOrder K] [IsStrictOrderedRing K]
+
+/-- What happens with ties, precisely: the sorted queue of the sorting-based algorithms depends on
+    the listing order of the sessions ONLY through ties.  If no two different sessions of the input
+    share a sort key, every permutation of the input gives the same queue (all five keys).
+    (With ties the order among equal keys is the input order, `Acn.C08.sorted_by_key` (iii) — and the
+    input order is the station order, which is why C10's station-permutation relation is claimed
+    for distinct keys.) -/
+theorem sort_perm_of_distinct_keys (kind : SortKind) (infra : Infra K) (period : K) (time : Int)
+    (l l' : List (Session K)) (hp : l'.Perm l)
+    (hd : ∀ a ∈ l, ∀ b ∈ l, Acn.C08.sameKey kind infra period time a b = true → a = b) :
+    sortSessions kind infra period time l' = sortSessions kind infra period time l := by
+  obtain ⟨p1, s1, _⟩ := Acn.C08.sorted_by_key kind infra period time l
+  obtain ⟨p2, s2, _⟩ := Acn.C08.sorted_by_key kind infra period time l'
+  refine List.Perm.eq_of_pairwise ?_ s2 s1 (p2.trans (hp.trans p1.symm))
+  intro a b ha hb h1 h2
+  have ha' : a ∈ l := hp.mem_iff.1 (p2.mem_iff.1 ha)
+  have hb' : b ∈ l := p1.mem_iff.1 hb
+  exact hd a ha' b hb' (by simp [Acn.C08.sameKey, h1, h2])
+
+example (kind : SortKind) (infra : Infra K) (period : K) (time : Int) (a : Session K) :
+    sortSessions kind infra period time [a] = [a] := rfl
+
+end ties
 end Acn.C10
